@@ -43,7 +43,7 @@ integer_re = re.compile(
         0(_?0)* # decimal zero
     )
     """,
-    re.IGNORECASE | re.VERBOSE,
+    re.IGNORECASE | re.VERBOSE | re.ASCII,
 )
 float_re = re.compile(
     r"""
